@@ -266,6 +266,15 @@ def _shared_list_fields(ctx, info) -> Set[str]:
                 val = c.args[idx]
             if isinstance(val, ast.Attribute) and norm(val.value) == "self":
                 out.add(val.attr)
+            elif isinstance(val, ast.Name):
+                # a local alias of the list: the field(s) bound to the same object
+                for st in ast.walk(init.node):
+                    if isinstance(st, (ast.Assign, ast.AnnAssign)) and st.value is not None:
+                        tgts = st.targets if isinstance(st, ast.Assign) else [st.target]
+                        names = {t.id for t in tgts if isinstance(t, ast.Name)}
+                        fields = {t.attr for t in tgts if isinstance(t, ast.Attribute) and norm(t.value) == "self"}
+                        if (val.id in names and fields) or (isinstance(st.value, ast.Name) and st.value.id == val.id and fields):
+                            out |= fields
     return out
 
 
@@ -423,7 +432,8 @@ def r04_5(ctx) -> None:
                                        and t.value.id == peers_name for t in n.info.get("targets", [])):
                 removals.add(n)
         closes = {n for n in nodes if ownership._is_aclose_await(ctx, u, n, src)}
-        tests = {n for n in nodes if n.kind == "branch" and isinstance(n.ast, ast.Name) and n.ast.id == peers_name}
+        empty_edge = _emptiness_tests(ctx, u, cfg, nodes, peers_name)
+        tests = set(empty_edge)
         # (a) the removal is by identity with the child's own buffer
         for r in removals:
             if r.kind == "call" and r.ast.func.attr == "remove":  # type: ignore[union-attr]
@@ -461,13 +471,13 @@ def r04_5(ctx) -> None:
         # (b) close only when no buffer remains, and then always (if closeable)
         for c in closes:
             path = find_path(entry, lambda x, c=c: x is c, avoid=None,
-                             edge_ok=lambda a, lab, b: lab not in ("e", "p") and not (a in tests and lab == "f"))
+                             edge_ok=lambda a, lab, b: lab not in ("e", "p") and not (a in tests and lab == empty_edge[a]))
             ctx.check(path is None, "R04.5", u, c, "the source is closed only when no peer buffer remains",
                       node=c, witness=pretty_path(path))
         if tests:
             for t in tests:
                 # from "peers is empty" every path reaches the close or the not-closeable branch
-                start = [s for (lab, s) in t.succ if lab == "f"]
+                start = [s for (lab, s) in t.succ if lab == empty_edge[t]]
                 miss = find_path(start[0], lambda x: x in (cfg.exit, cfg.raise_exit) or x.kind == "reraise",
                                  avoid=lambda x: x in closes,
                                  edge_ok=lambda a, lab, b: lab not in ("e",) and not (
@@ -491,13 +501,63 @@ def r04_5(ctx) -> None:
                         return lab != none_edge  # index is None: not found
                     return True
 
-                before = find_path(entry, lambda x, t=t: x is t, avoid=lambda x: x in removals, edge_ok=found_edge)
+                # where the list is actually looked at: the branch, or the store of the local it tests
+                looks = _test_positions(ctx, u, cfg, t)
+                before = None
+                for pos in looks:
+                    before = before or find_path(entry, lambda x, pos=pos: x is pos, avoid=lambda x: x in removals, edge_ok=found_edge)
                 ctx.check(before is None, "R04.5", u, t,
                           "the emptiness test of the shared list follows the removal of the own buffer", node=t,
                           witness=pretty_path(before))
         else:
             ctx.fail("R04.5", u, f"finally of tee_peer ({tag or 'normal'} exit)",
                      "the source close is not conditioned on the shared buffer list being empty")
+
+
+def _emptiness_tests(ctx, u, cfg, nodes, peers_name: str) -> dict:
+    """branch node -> label of the edge on which the shared list is empty: a truth test of
+    the list itself, of ``len(list)`` comparisons, or of a local bound to one of those."""
+    from .common import name_value
+
+    def polarity(e, depth=0):
+        """'f' if truthiness of e == list non-empty, 't' if == list empty, else None"""
+        if isinstance(e, ast.Name) and e.id == peers_name:
+            return "f"
+        if isinstance(e, ast.UnaryOp) and isinstance(e.op, ast.Not):
+            p = polarity(e.operand, depth)
+            return {"f": "t", "t": "f"}.get(p)
+        if isinstance(e, ast.Call) and norm(e.func) in ("bool", "len") and len(e.args) == 1:
+            return polarity(e.args[0], depth)
+        if isinstance(e, ast.Compare) and len(e.ops) == 1 and isinstance(e.left, ast.Call) and norm(e.left.func) == "len" \
+                and e.left.args and polarity(e.left.args[0], depth) == "f" and isinstance(e.comparators[0], ast.Constant):
+            c, op = e.comparators[0].value, type(e.ops[0])
+            if (c, op) in ((0, ast.Eq), (1, ast.Lt), (0, ast.LtE)):
+                return "t"
+            if (c, op) in ((0, ast.NotEq), (0, ast.Gt), (1, ast.GtE)):
+                return "f"
+        return None
+
+    out = {}
+    for n in nodes:
+        if n.kind != "branch":
+            continue
+        e = n.ast
+        p = polarity(e)
+        if p is None and isinstance(e, ast.Name):
+            v = name_value(ctx, u, cfg, n, e.id)
+            p = polarity(v) if v is not None else None
+        if p is not None:
+            out[n] = p
+    return out
+
+
+def _test_positions(ctx, u, cfg, t: Node) -> List[Node]:
+    if isinstance(t.ast, ast.Name):
+        from asl.flow import reaching
+        defs = [d for d in reaching(cfg).defs_at(t, t.ast.id) if d.kind == "store" and d.info.get("value") is not None]
+        if defs and t.ast.id not in u.param_names():
+            return defs
+    return [t]
 
 
 def _tee_names(u) -> Tuple[str, str]:
